@@ -691,6 +691,7 @@ impl<'a> Model<'a> {
                 .mutations
                 .iter()
                 .any(|m| m.0 != *start_idx && m.0 <= idx && m.1 > idx && m.3.iter().any(|(a, n)| a == snap_ack && *n > 0));
+            let tainted = self.subs[*si].tainted_until > now;
             if let Some(st) = self.subs[*si].msgs.get_mut(k) {
                 if let Ms::Leased { lo, hi, modified, maybe_gone, maybe_acked, ack, hi_known } = st {
                     if ack != snap_ack {
@@ -709,6 +710,11 @@ impl<'a> Model<'a> {
                     if *n == 0 {
                         if *maybe_acked {
                             *st = Ms::Limbo;
+                        } else if !*live && tainted {
+                            // the lease may have ended before this request (an earlier nack whose
+                            // outcome is unknown, the deadline) while an abandoned consumer was
+                            // around: the message may sit in a lease nobody holds
+                            *st = Ms::MaybeLeased;
                         } else {
                             *st = Ms::Queued { why: Why::Nack, since: idx };
                         }
